@@ -787,12 +787,13 @@ func TestVerifC06HeaderLimit(t *testing.T) {
 			t.Fatalf("HeaderFull()=%v with %d entries, but a header with %d compressed entries fits=%v", full, n, n+1, fits(n+1, 0))
 		}
 	}
-	if verifkit.Tier() != "thorough" {
-		return
-	}
-
+	// real packs at the exact entry boundary: the three all-compressed ones also in the quick
+	// tier (a few seconds; an independent seeded change that mis-bounded the header length in
+	// readRecords was only visible with a pack of exactly MaxHeaderEntries entries), the
+	// byte-exact mixes in the thorough tier
 	type bcase struct{ compr, plain int }
 	cases := []bcase{{maxE - 1, 0}, {maxE, 0}, {maxE + 1, 0}}
+	quickCases := len(cases)
 	// byte-exact: choose plain counts so that the header is exactly at / one entry over the limit
 	limit := refMaxHeaderC06 - 32
 	for plain := 1; plain <= 41 && len(cases) < 9; plain++ {
@@ -804,6 +805,9 @@ func TestVerifC06HeaderLimit(t *testing.T) {
 	cases = append(cases, bcase{0, limit / refPlainEntryC06}, bcase{0, limit/refPlainEntryC06 + 1})
 	for ci, c := range cases {
 		if ci%verifkit.Shards() != verifkit.Shard() {
+			continue
+		}
+		if verifkit.Tier() != "thorough" && ci >= quickCases {
 			continue
 		}
 		n := c.compr + c.plain
